@@ -117,6 +117,28 @@ def build(case):
     return case["spec"], None
 
 
+def _fit_did_not_converge(pyhf, fam, case, tested, data, fdata, model, init, bounds, fixed, mubh, muh):
+    """Diagnosis of a closed-form mismatch.  True only if (a) the statistic returned bit-for-bit the points that
+    the direct mle.fit / mle.fixed_poi_fit calls with the same arguments return, and (b) one of those direct fits
+    ends above the closed-form optimum by more than the optimiser tolerance."""
+    import numpy as np
+
+    tol_opt = 2e-4 if case["optimizer"] == "scipy" else 2e-3
+    try:
+        pu, vu = pyhf.infer.mle.fit(data, model, init, bounds, fixed, return_fitted_val=True)
+        pc, vc = pyhf.infer.mle.fixed_poi_fit(tested, data, model, init, bounds, fixed, return_fitted_val=True)
+    except Exception:  # noqa: BLE001 - no diagnosis possible: keep the verdict
+        return False
+    pu, pc = backends.tonp(pu).astype(float), backends.tonp(pc).astype(float)
+    if not (np.array_equal(pu, np.asarray(muh)) and np.array_equal(pc, np.asarray(mubh))):
+        return False
+    ru, nu = fam.unconditional(fdata)
+    rc, nc = fam.conditional(tested, fdata)
+    if ru is None or rc is None:
+        return False
+    return float(backends.tonp(vu)) > 2 * nu + tol_opt or float(backends.tonp(vc)) > 2 * nc + tol_opt
+
+
 def run_case(case, ctx):
     import pyhf
     from pyhf.infer import test_statistics as T
@@ -196,6 +218,7 @@ def run_case(case, ctx):
         ctx.close("definition", qv, want, 1e-9 * (1 + sc + sf), f"{sig}/value_ne_definition_at_returned_pars/{branch}",
                   mu=mu, muhat=muh[pi], raw=raw)
         on_bound = abs(muh[pi] - bounds[pi][0]) < 1e-9
+        unconverged = False
         # closed form
         if fam is not None:
             if stat in ("qmu", "qmu_tilde"):
@@ -212,10 +235,17 @@ def run_case(case, ctx):
                     ctx.err("closed_form", 0.0 if ok else float("inf"))
                     if not ok:
                         ctx.fail(f"{sig}/closed_form/{case['family']}/near_seam", got=qv, raw=rraw)
+                elif abs(qv - qr) > tol and _fit_did_not_converge(pyhf, fam, case, tested, data, fdata, model, init, bounds,
+                                                                   fixed, mubh, muh):
+                    # root cause is the optimiser (recorded under C05), not the test-statistic logic: the
+                    # statistic returns exactly the points the direct fits return, and those miss the optimum
+                    ctx.excluded("closed-form comparison skipped: the direct mle fit stops short of the closed-form "
+                                 f"optimum ({case['optimizer']}; optimiser limitation recorded under C05)")
+                    unconverged = True
                 else:
                     ctx.close("closed_form", qv, qr, tol, f"{sig}/closed_form/{case['family']}",
                               mu=mu, muhat_ref=ru[0], muhat=muh[pi])
-                if case["at_bestfit"] and mu == ru[0] and stat != "q0":
+                if case["at_bestfit"] and mu == ru[0] and stat != "q0" and not unconverged:
                     if not qv <= tol:
                         ctx.fail(f"{sig}/nonzero_at_best_fit", q=qv)
         ctx.label(f"stat={stat}", f"family={case['family']}", f"optimizer={case['optimizer']}", f"branch={branch}",
